@@ -5,13 +5,16 @@ C16 — referential integrity (`server/lib/src/plugins/refint.rs`, the cascade/r
 The model transcribes what the code does.  Uuids, attribute ids, claim names and session ids
 are naturals.  Only uuid-bearing valuesets are kept on an entry; payloads that refint never
 looks at (scope strings, claim values, password hashes, session times) are dropped.
+Revoked sessions are inert for refint (`as_ref_uuid_iter`, `contains` skip them, `remove` can only
+revoke them again); the code trims them lazily once their revocation is older than the changelog
+window (`ValueSetOauth2Session::trim` on every `invalidate`, also by other plugins' writes), which
+the model does not follow — the driver and the harness therefore do not display revoked sessions.
 
 * `VS`                 — `ValueSetRefer` / `ValueSetOauthScopeMap` / `ValueSetApplicationPassword`
                          (a set of uuid keys), `ValueSetUuid` (a plain uuid set: **not** a
                          reference), `ValueSetOauthClaimMap` (claim ↦ set of group uuids, a nested
                          reference), `ValueSetOauth2Session` (session id ↦ rs uuid, revoked flag).
-* `VS.refs`            — `as_ref_uuid_iter` (for sessions: the rs uuid of **every** session,
-                         revoked ones included).
+* `VS.refs`            — `as_ref_uuid_iter` (for sessions: the rs uuid of every non-revoked session).
 * `VS.contains/remove` — the `PartialValue::Refer(u)` arms of `contains` / `remove`.
 * `existFast/existSlow`— `check_uuids_exist_fast/slow` (Inclusion semantics of `be/mod.rs`: every
                          term must be in the uuid index — which still lists recycled and tombstoned
@@ -60,12 +63,14 @@ def VS.syn : VS → Syn
   | .claims _ => .oauthClaimMap
   | .sessions _ => .oauth2Session
 
-/-- `as_ref_uuid_iter`. -/
+/-- `as_ref_uuid_iter`.  For sessions: the rs uuid of every session that is not revoked
+(`sessionRefsSkipRevoked`, read from valueset/session.rs; before that repair revoked sessions
+were listed too and masked a new active session to the same, dead, resource server). -/
 def VS.refs : VS → List Nat
   | .keys .plainUuid _ => []
   | .keys _ ks => ks
   | .claims m => m.flatMap (·.2)
-  | .sessions m => m.map (·.rs)
+  | .sessions m => (m.filter (fun x => !(sessionRefsSkipRevoked && x.revoked))).map (·.rs)
 
 /-- The references the property speaks about: as `refs`, but a revoked session is the
 tombstone of a value (kept only so that its revocation cid replicates) and no longer refers. -/
@@ -86,6 +91,15 @@ def VS.contains (u : Nat) : VS → Bool
   | .keys _ ks => ks.contains u
   | .claims m => m.any (fun c => c.2.contains u)
   | .sessions m => m.any (fun x => x.sid == u) || m.any (fun x => x.rs == u && !x.revoked)
+
+/-- Is `u` one of the equality index keys of the value (`generate_idx_eq_keys`)?  For sessions
+the keys are every session id and every rs uuid, revoked sessions included — so the indexed
+search of `remove_references` selects more entries than `contains` would. -/
+def VS.idxHas (u : Nat) : VS → Bool
+  | .keys .plainUuid _ => false
+  | .keys _ ks => ks.contains u
+  | .claims m => m.any (fun c => c.2.contains u)
+  | .sessions m => m.any (fun x => x.sid == u || x.rs == u)
 
 def revokeSid (u : Nat) (x : Sess) : Sess := if x.sid == u then { x with revoked := true } else x
 def revokeRs (u : Nat) (x : Sess) : Sess := if x.rs == u then { x with revoked := true } else x
@@ -223,9 +237,10 @@ def postModifyInner (s : State) (pre : Option (List Entry)) (post : List Entry) 
 
 /-! ## `remove_references` -/
 
-/-- Does the `f_or [ r_type = Refer(u) ]` search select the entry? -/
+/-- Does the `f_or [ r_type = Refer(u) ]` search select the entry?  Every term is an indexed
+equality, so the candidate set comes from the index and is not re-tested. -/
 def Entry.matchesAny (us : List Nat) (e : Entry) : Bool :=
-  e.attrs.any (fun p => inRefCache p.2.syn && us.any (fun u => p.2.contains u))
+  e.attrs.any (fun p => inRefCache p.2.syn && us.any (fun u => p.2.idxHas u))
 
 /-- `remove_avas` on every reference-typed attribute. -/
 def Entry.strip (us : List Nat) (e : Entry) : Entry :=
@@ -342,7 +357,7 @@ def applyMods (e : Entry) : List Mod → Option Entry
 /-- `internal_modify_uuid` (the target must be live: `filter!`). -/
 def opModify (s : State) (u : Nat) (mods : List Mod) : Res :=
   match s.find? (fun e => e.uuid == u && e.st == .live) with
-  | none => .err .noMatch
+  | none => .ok s     -- internal identity: "no candidates match filter ... continuing"
   | some e =>
     match applyMods e mods with
     | none => .err .invalid
@@ -401,7 +416,7 @@ def reviveEntry (e : Entry) : Entry :=
 /-- One `internal_modify(filter_all!(uuid = g), [Present(member, u) …])` of the re-add loop. -/
 def readd (s : State) (g : Nat) (members : List Nat) : Res :=
   match find s g with
-  | none => .err .noMatch
+  | none => .ok s     -- internal identity: an empty candidate set is not an error
   | some ge =>
     if ge.st == .tombstone then .err .invalid
     else
